@@ -307,4 +307,199 @@ theorem expandL_sound (ρ σ : Var → Nat) : ∀ (cs : List Expr) (path : Strin
     exact ⟨expand_sound ρ σ c _ idx hE.1, expandL_sound ρ σ cs path idx (k + 1) hE.2⟩
 end
 
+/-! ### Keys, values, variables -/
+
+mutual
+theorem nodeVals_keys (ρ σ : Var → Nat) : ∀ (e : Expr) (path : String) (idx : List Nat),
+    (nodeVals ρ σ path idx e).map (·.1) = nodeKeys ρ path idx e
+  | .axis _, _, _ => by simp [nodeVals, nodeKeys]
+  | .num _, _, _ => by simp [nodeVals, nodeKeys]
+  | .brackets e, path, idx => by simp only [nodeVals, nodeKeys]; exact nodeVals_keys ρ σ e path idx
+  | .flat e, path, idx => by
+    simp only [nodeVals, nodeKeys, List.map_cons]; rw [nodeVals_keys ρ σ e _ idx]
+  | .concat cs, path, idx => by
+    simp only [nodeVals, nodeKeys, List.map_cons]; rw [nodeValsL_keys ρ σ cs _ idx 0]
+  | .ellipsis id e, path, idx => by
+    simp only [nodeVals, nodeKeys, List.map_flatMap]
+    have ih := fun i => nodeVals_keys ρ σ e path (idx ++ [i])
+    simp only [ih]
+  | .list cs, path, idx => by simp only [nodeVals, nodeKeys]; exact nodeValsL_keys ρ σ cs path idx 0
+theorem nodeValsL_keys (ρ σ : Var → Nat) : ∀ (cs : List Expr) (path : String) (idx : List Nat) (k : Nat),
+    (nodeValsL ρ σ path idx k cs).map (·.1) = nodeKeysL ρ path idx k cs
+  | [], _, _, _ => by simp [nodeValsL, nodeKeysL]
+  | c :: cs, path, idx, k => by
+    simp only [nodeValsL, nodeKeysL, List.map_append]
+    rw [nodeVals_keys ρ σ c _ idx, nodeValsL_keys ρ σ cs path idx (k + 1)]
+end
+
+mutual
+theorem nodeVals_values (ρ σ : Var → Nat) : ∀ (e : Expr) (path : String) (idx : List Nat),
+    (nodeVals ρ σ path idx e).map (·.2) = nodeValues ρ σ idx e
+  | .axis _, _, _ => by simp [nodeVals, nodeValues]
+  | .num _, _, _ => by simp [nodeVals, nodeValues]
+  | .brackets e, path, idx => by simp only [nodeVals, nodeValues]; exact nodeVals_values ρ σ e path idx
+  | .flat e, path, idx => by
+    simp only [nodeVals, nodeValues, List.map_cons]; rw [nodeVals_values ρ σ e _ idx]
+  | .concat cs, path, idx => by
+    simp only [nodeVals, nodeValues, List.map_cons]; rw [nodeValsL_values ρ σ cs _ idx 0]
+  | .ellipsis id e, path, idx => by
+    simp only [nodeVals, nodeValues, List.map_flatMap]
+    have ih := fun i => nodeVals_values ρ σ e path (idx ++ [i])
+    simp only [ih]
+  | .list cs, path, idx => by simp only [nodeVals, nodeValues]; exact nodeValsL_values ρ σ cs path idx 0
+theorem nodeValsL_values (ρ σ : Var → Nat) : ∀ (cs : List Expr) (path : String) (idx : List Nat) (k : Nat),
+    (nodeValsL ρ σ path idx k cs).map (·.2) = nodeValuesL ρ σ idx cs
+  | [], _, _, _ => by simp [nodeValsL, nodeValuesL]
+  | c :: cs, path, idx, k => by
+    simp only [nodeValsL, nodeValuesL, List.map_append]
+    rw [nodeVals_values ρ σ c _ idx, nodeValsL_values ρ σ cs path idx (k + 1)]
+end
+
+mutual
+/-- The declared variables of `expand` are the axis variables and the node keys. -/
+theorem expand_vars (ρ : Var → Nat) (x : Var) : ∀ (e : Expr) (path : String) (idx : List Nat),
+    x ∈ (expand ρ path idx e).vars ↔ x ∈ (axesOf ρ idx e).map (·.2.2) ∨ x ∈ nodeKeys ρ path idx e
+  | .axis _, _, _ => by simp [expand, axesOf, nodeKeys]
+  | .num _, _, _ => by simp [expand, axesOf, nodeKeys]
+  | .brackets e, path, idx => by simp only [expand, axesOf, nodeKeys]; exact expand_vars ρ x e path idx
+  | .flat e, path, idx => by
+    simp only [expand, axesOf, nodeKeys, List.mem_cons]
+    rw [expand_vars ρ x e _ idx]
+    constructor
+    · rintro (h | h | h)
+      · exact Or.inr (Or.inl h)
+      · exact Or.inl h
+      · exact Or.inr (Or.inr h)
+    · rintro (h | h | h)
+      · exact Or.inr (Or.inl h)
+      · exact Or.inl h
+      · exact Or.inr (Or.inr h)
+  | .concat cs, path, idx => by
+    simp only [expand, axesOf, nodeKeys, List.mem_cons]
+    rw [expandL_vars ρ x cs _ idx 0]
+    constructor
+    · rintro (h | h | h)
+      · exact Or.inr (Or.inl h)
+      · exact Or.inl h
+      · exact Or.inr (Or.inr h)
+    · rintro (h | h | h)
+      · exact Or.inr (Or.inl h)
+      · exact Or.inl h
+      · exact Or.inr (Or.inr h)
+  | .ellipsis id e, path, idx => by
+    simp only [expand, axesOf, nodeKeys, Gen.concat_vars, List.flatMap_map, List.mem_flatMap, List.map_flatMap]
+    have ih := fun i => expand_vars ρ x e path (idx ++ [i])
+    simp only [ih]
+    constructor
+    · rintro ⟨i, hi, h | h⟩
+      · exact Or.inl ⟨i, hi, h⟩
+      · exact Or.inr ⟨i, hi, h⟩
+    · rintro (⟨i, hi, h⟩ | ⟨i, hi, h⟩)
+      · exact ⟨i, hi, Or.inl h⟩
+      · exact ⟨i, hi, Or.inr h⟩
+  | .list cs, path, idx => by simp only [expand, axesOf, nodeKeys]; exact expandL_vars ρ x cs path idx 0
+theorem expandL_vars (ρ : Var → Nat) (x : Var) : ∀ (cs : List Expr) (path : String) (idx : List Nat) (k : Nat),
+    x ∈ (expandL ρ path idx k cs).vars ↔ x ∈ (axesOfL ρ idx cs).map (·.2.2) ∨ x ∈ nodeKeysL ρ path idx k cs
+  | [], _, _, _ => by simp [expandL, axesOfL, nodeKeysL]
+  | c :: cs, path, idx, k => by
+    simp only [expandL, axesOfL, nodeKeysL, Gen.append, List.mem_append, List.map_append]
+    rw [expand_vars ρ x c _ idx, expandL_vars ρ x cs path idx (k + 1)]
+    constructor
+    · rintro ((h | h) | (h | h))
+      · exact Or.inl (Or.inl h)
+      · exact Or.inr (Or.inl h)
+      · exact Or.inl (Or.inr h)
+      · exact Or.inr (Or.inr h)
+    · rintro ((h | h) | (h | h))
+      · exact Or.inl (Or.inl h)
+      · exact Or.inr (Or.inl h)
+      · exact Or.inl (Or.inr h)
+      · exact Or.inr (Or.inr h)
+end
+
+/-! ### Only the axis variables matter; only the counts of the ellipses present matter -/
+
+mutual
+theorem evalItems_congr (ρ σ τ : Var → Nat) : ∀ (e : Expr) (idx : List Nat),
+    (∀ a ∈ axesOf ρ idx e, σ a.2.2 = τ a.2.2) → evalItems ρ σ idx e = evalItems ρ τ idx e
+  | .axis n, idx, h => by
+    simp only [evalItems]; rw [h (n, idx, n ++ idxSuffix idx) (by simp [axesOf])]
+  | .num _, _, _ => by simp [evalItems]
+  | .brackets e, idx, h => by
+    simp only [evalItems]; exact evalItems_congr ρ σ τ e idx (by simpa only [axesOf] using h)
+  | .flat e, idx, h => by
+    simp only [evalItems]; rw [evalItems_congr ρ σ τ e idx (by simpa only [axesOf] using h)]
+  | .concat cs, idx, h => by
+    simp only [evalItems]; rw [evalItemsL_congr ρ σ τ cs idx (by simpa only [axesOf] using h)]
+  | .ellipsis id e, idx, h => by
+    simp only [evalItems]
+    simp only [axesOf, List.forall_mem_flatMap] at h
+    exact flatMap_congr' (fun i hi => evalItems_congr ρ σ τ e (idx ++ [i]) (h i hi))
+  | .list cs, idx, h => by
+    simp only [evalItems]; exact evalItemsL_congr ρ σ τ cs idx (by simpa only [axesOf] using h)
+theorem evalItemsL_congr (ρ σ τ : Var → Nat) : ∀ (cs : List Expr) (idx : List Nat),
+    (∀ a ∈ axesOfL ρ idx cs, σ a.2.2 = τ a.2.2) → evalItemsL ρ σ idx cs = evalItemsL ρ τ idx cs
+  | [], _, _ => by simp [evalItemsL]
+  | c :: cs, idx, h => by
+    simp only [axesOfL, List.forall_mem_append] at h
+    simp only [evalItemsL]
+    rw [evalItems_congr ρ σ τ c idx h.1, evalItemsL_congr ρ σ τ cs idx h.2]
+end
+
+mutual
+theorem nodeValues_congr (ρ σ τ : Var → Nat) : ∀ (e : Expr) (idx : List Nat),
+    (∀ a ∈ axesOf ρ idx e, σ a.2.2 = τ a.2.2) → nodeValues ρ σ idx e = nodeValues ρ τ idx e
+  | .axis _, _, _ => by simp [nodeValues]
+  | .num _, _, _ => by simp [nodeValues]
+  | .brackets e, idx, h => by
+    simp only [nodeValues]; exact nodeValues_congr ρ σ τ e idx (by simpa only [axesOf] using h)
+  | .flat e, idx, h => by
+    simp only [axesOf] at h
+    simp only [nodeValues]; rw [nodeValues_congr ρ σ τ e idx h, evalItems_congr ρ σ τ e idx h]
+  | .concat cs, idx, h => by
+    simp only [axesOf] at h
+    simp only [nodeValues]; rw [nodeValuesL_congr ρ σ τ cs idx h, evalItemsL_congr ρ σ τ cs idx h]
+  | .ellipsis id e, idx, h => by
+    simp only [nodeValues]
+    simp only [axesOf, List.forall_mem_flatMap] at h
+    exact flatMap_congr' (fun i hi => nodeValues_congr ρ σ τ e (idx ++ [i]) (h i hi))
+  | .list cs, idx, h => by
+    simp only [nodeValues]; exact nodeValuesL_congr ρ σ τ cs idx (by simpa only [axesOf] using h)
+theorem nodeValuesL_congr (ρ σ τ : Var → Nat) : ∀ (cs : List Expr) (idx : List Nat),
+    (∀ a ∈ axesOfL ρ idx cs, σ a.2.2 = τ a.2.2) → nodeValuesL ρ σ idx cs = nodeValuesL ρ τ idx cs
+  | [], _, _ => by simp [nodeValuesL]
+  | c :: cs, idx, h => by
+    simp only [axesOfL, List.forall_mem_append] at h
+    simp only [nodeValuesL]
+    rw [nodeValues_congr ρ σ τ c idx h.1, nodeValuesL_congr ρ σ τ cs idx h.2]
+end
+
+mutual
+theorem expand_congr (ρ ρ' : Var → Nat) : ∀ (e : Expr) (path : String) (idx : List Nat),
+    (∀ id ∈ ellIds e, ρ id = ρ' id) → expand ρ path idx e = expand ρ' path idx e
+  | .axis _, _, _, _ => by simp [expand]
+  | .num _, _, _, _ => by simp [expand]
+  | .brackets e, path, idx, h => by
+    simp only [expand]; exact expand_congr ρ ρ' e path idx (by simpa only [ellIds] using h)
+  | .flat e, path, idx, h => by
+    simp only [expand]; rw [expand_congr ρ ρ' e _ idx (by simpa only [ellIds] using h)]
+  | .concat cs, path, idx, h => by
+    simp only [expand]; rw [expandL_congr ρ ρ' cs _ idx 0 (by simpa only [ellIds] using h)]
+  | .ellipsis id e, path, idx, h => by
+    simp only [ellIds, List.forall_mem_cons] at h
+    simp only [expand]
+    rw [h.1]
+    have ih := fun i => expand_congr ρ ρ' e path (idx ++ [i]) h.2
+    simp only [ih]
+  | .list cs, path, idx, h => by
+    simp only [expand]; exact expandL_congr ρ ρ' cs path idx 0 (by simpa only [ellIds] using h)
+theorem expandL_congr (ρ ρ' : Var → Nat) : ∀ (cs : List Expr) (path : String) (idx : List Nat) (k : Nat),
+    (∀ id ∈ ellIdsL cs, ρ id = ρ' id) → expandL ρ path idx k cs = expandL ρ' path idx k cs
+  | [], _, _, _, _ => by simp [expandL]
+  | c :: cs, path, idx, k, h => by
+    simp only [ellIdsL, List.forall_mem_append] at h
+    simp only [expandL]
+    rw [expand_congr ρ ρ' c _ idx h.1, expandL_congr ρ ρ' cs path idx (k + 1) h.2]
+end
+
 end Einx.Solve
